@@ -149,13 +149,20 @@ func mkReq(p planT) qry.Require {
 // setup parses text and prepares it under plan p. It returns errImpossible
 // if the optimizer finds no strategy for the requirement.
 func setup(d *dbT, text string, cols []string, p planT) (x *execT, err *engineErr) {
+	return setupTran(d, text, cols, p, nil)
+}
+
+// setupTran is setup under a transaction supplied by the caller (which
+// then owns it); with tran == nil a transaction is created.
+func setupTran(d *dbT, text string, cols []string, p planT, tran qry.QueryTran) (x *execT, err *engineErr) {
 	x = &execT{d: d, plan: p, th: &core.Thread{}, cols: cols}
-	var tran qry.QueryTran
-	if p.mode == qry.UpdateMode {
-		x.ut = d.db.NewUpdateTran()
-		tran = x.ut
-	} else {
-		tran = d.db.NewReadTran()
+	if tran == nil {
+		if p.mode == qry.UpdateMode {
+			x.ut = d.db.NewUpdateTran()
+			tran = x.ut
+		} else {
+			tran = d.db.NewReadTran()
+		}
 	}
 	err = catch(func() {
 		sw := qry.VerifSwitches{SortForTest: true}
